@@ -34,6 +34,9 @@ def tree_files(files, root: str) -> dict:
             continue
         tag = "_".join(d)
         out["/".join(d) + "/__init__.py"] = f"def init_fn_{tag}() -> int:\n    ...\n"
+        if any(seg in ("test", "tests", "docs") for seg in d):      # the package files of filtered directories re-export a class of a private module
+            out["/".join(d) + "/__init__.py"] = f"from {root}._hiddenmod import HiddenCls\n\n\n" + out["/".join(d) + "/__init__.py"]
+    out["_hiddenmod.py"] = "class HiddenCls:\n    def hm(self) -> int:\n        ...\n"
     for f in files:
         p = f["path"]
         tag = "_".join([*p, f["stem"]]).replace(".", "_")
@@ -104,6 +107,11 @@ def main(v: Verdict) -> None:
                 seen = any(i == mid or i == decl or i.startswith(decl + "/") for i in ids)
                 o["json" + key], o["stub" + key], o["digest" + key] = seen, seen, ""
             obs.append({"id": f"tree{k}:{mid}/__init__", "obs": o})
+        # the private module whose class only package files of filtered directories re-export
+        api_off = off.api() or {}
+        cls = next((c for c in api_off.get("classes", []) if c["id"] == f"{root}/_hiddenmod/HiddenCls"), None)
+        stub_off = any("HiddenCls" in text for text in off.stubs.values())
+        obs.append({"id": f"tree{k}:hidden", "obs": {"role": "hidden", "stubOff": stub_off, "publicOff": bool(cls and cls.get("is_public"))}})
     bad = judge(v, "C15_Trace", obs)
     v.add_bad(bad)
     v.samples = obs[:2] + obs[-2:]
